@@ -1,4 +1,6 @@
 import ScrapliModel.Lemmas.Platform
+import ScrapliModel.Lemmas.PlatformPriv
+import ScrapliModel.Props.C04
 import ScrapliModel.Generated.Platforms
 /-!
 # C17 — every advertised platform definition loads and drives a matching device
@@ -76,7 +78,7 @@ nil-map panic of `buildPrivGraph` (a `previous-priv` that is no level's name) -/
 theorem tree_definitions_build_graph (d : Def) (hk : keyEqName d = true) (ht : singleTree d = true) :
     graphBuildable d = true := singleTree_graphBuildable d hk ht
 
-example : ∃ l ∈ loaded, keyEqName l.d = true ∧ singleTree l.d = true ∧ l.d.levels.length = 4 := by
+example : ∃ l ∈ loaded, keyEqName l.d = true ∧ singleTree l.d = true ∧ 3 ≤ l.d.levels.length := by
   decide +kernel
 
 /-- the key of every level in the `privilege-levels` map is the level's `name` (the graph is
@@ -129,10 +131,126 @@ theorem all_levels_reachable : ∀ l ∈ loaded, isNetwork l.d = true → allRea
   decide +kernel
 
 /-- the hypotheses above are not vacuous: there are network definitions, one with a variant, one
-with six levels, and a level that is only a starting point -/
-example : (∃ l ∈ loaded, isNetwork l.d = true ∧ l.d.levels.length = 6)
+with at least four levels, and a level that is only a starting point -/
+example : (∃ l ∈ loaded, isNetwork l.d = true ∧ 4 ≤ l.d.levels.length)
     ∧ (∃ l ∈ loaded, l.variant ≠ "")
     ∧ (∃ l ∈ loaded, ∃ x ∈ l.d.levels, targetable x = false) := by decide +kernel
+
+/-! ## link to C04: `AcquirePriv` on the definition-derived device
+
+`toCfg d secret orc` (`ScrapliModel/PlatformPriv.lean`) turns a generated definition into C04's
+scenario: level table, device prompts = witness prompts, client matcher = not-contains + pattern
+(regex engine), password asked on authenticated edges iff a secret is configured. C04's decidable
+hypotheses are evaluated by the kernel for every embedded definition and variant; `dom_of_checks`
+and C04's theorems then give the acquisition result for EVERY secret, EVERY map-iteration order
+(possibly different at every call), every cache content and every log/tick. Definitions that miss a
+hypothesis are listed, with the hypothesis, in the generated `c04Exempt` and are left out
+explicitly. -/
+
+/-- every network definition not listed in `c04Exempt` meets C04's decidable hypotheses:
+`isTree`, `recognises`, `ambigLeaf` (a level whose prompt another level accepts is a leaf),
+`cmdsOK` (non-root levels have escalate and deescalate commands, unambiguous among siblings) and
+auth flags consistent with the device's asking -/
+theorem c04_checks_hold : ∀ l ∈ loaded, isNetwork l.d = true → exemptTag c04Exempt l = none →
+    c04Checks l.d = true := by decide +kernel
+
+/-- the exemption list is honest: every entry names a loaded definition and a C04 hypothesis that
+the kernel evaluates to false on it -/
+theorem c04_exempt_justified : ∀ e ∈ c04Exempt, e.2.2.1 ∈ c04Tags ∧
+    ∃ l ∈ loaded, l.file = e.1 ∧ l.variant = e.2.1 ∧ c04Check l.d e.2.2.1 = false := by
+  decide +kernel
+
+/-- … and it cannot grow silently: a definition is exempt only for the reason the property itself
+grants — a leaf level without an escalate command ("only as a starting point") — with every other
+hypothesis of C04 (tree, recognised prompts, ambiguous levels are leaves, unambiguous transition
+commands among the levels that have them) holding. A definition that misses another hypothesis
+(an ambiguous interior level, a command shared with a sibling or the parent) breaks THIS theorem. -/
+theorem c04_exempt_only_source_only : ∀ l ∈ loaded, exemptTag c04Exempt l ≠ none →
+    exemptionGranted l.d = true := by decide +kernel
+
+/-- `platform_acquire_reaches_target` (instantiation of C04's `acquire_reaches_target` /
+`acquire_log_is_treePath`): for every embedded network definition and merged variant outside
+`c04Exempt`, every secret, every valid map-order oracle, every current level and every targetable
+level of the definition, every cache that resolves the start (`Resolves`: the start prompt is
+unambiguous — then any cache —, or the cache is accurate, or the device already is at the target
+and the cache names no level; this is "levels with indistinguishable prompts count as one"), every
+log and tick: `AcquirePriv` on the definition-derived device succeeds with the device at the
+target, the cache naming it, and the device having received exactly `expectedLog` of the tree
+path; the non-empty lines among them are exactly the tree-path commands (`hopLines`: deescalate of
+the level left / escalate of the child entered, followed by the secret where the device asks). -/
+theorem platform_acquire_reaches_target :
+    ∀ l ∈ loaded, isNetwork l.d = true → exemptTag c04Exempt l = none →
+    ∀ (secret : Bytes) (orc : Nat → Priv.Orders), (∀ t, (orc t).Valid) →
+    ∀ cur ∈ l.d.levels, ∀ tgt ∈ l.d.levels, targetable tgt = true →
+    ∀ (cache : Bytes) (log : List (Bytes × Bytes)) (tick : Nat),
+      Priv.Resolves (toCfg l.d secret orc) cache (ofStr tgt.name) (ofStr cur.name) →
+      Priv.acquirePriv (toCfg l.d secret orc) (ofStr tgt.name)
+          ⟨⟨ofStr cur.name, none, log⟩, cache, tick⟩ =
+        (none, ⟨⟨ofStr tgt.name, none, log ++ Priv.expectedLog (toCfg l.d secret orc)
+                    (Priv.treePath (toCfg l.d secret orc).L (ofStr cur.name) (ofStr tgt.name))⟩,
+                ofStr tgt.name,
+                tick + (Priv.treePath (toCfg l.d secret orc).L (ofStr cur.name) (ofStr tgt.name)).length⟩)
+      ∧ (Priv.expectedLog (toCfg l.d secret orc)
+            (Priv.treePath (toCfg l.d secret orc).L (ofStr cur.name) (ofStr tgt.name))).filter
+            (fun e => e.2 != []) =
+          Priv.hopLines (toCfg l.d secret orc)
+            (Priv.treePath (toCfg l.d secret orc).L (ofStr cur.name) (ofStr tgt.name)) := by
+  intro l hl hn hex secret orc ho cur hcur tgt htgt _ cache log tick hres
+  obtain ⟨hd, htree⟩ := dom_toCfg l.d (c04_checks_hold l hl hn hex) secret orc ho
+  have hm : ofStr cur.name ∈ Priv.names (toCfg l.d secret orc).L := mem_names_toCfg hcur
+  have ht : ofStr tgt.name ∈ Priv.names (toCfg l.d secret orc).L := mem_names_toCfg htgt
+  exact ⟨Priv.C04.acquire_log_is_treePath hd htree ⟨⟨ofStr cur.name, none, log⟩, cache, tick⟩ rfl hm ht hres,
+    Priv.C04.acquire_lines_are_path_commands hd _ _ _ (Priv.treePath_simple htree hm ht).1⟩
+
+/-- from a level whose prompt no other level accepts, whatever the cache holds -/
+theorem platform_acquire_from_unambiguous :
+    ∀ l ∈ loaded, isNetwork l.d = true → exemptTag c04Exempt l = none →
+    ∀ (secret : Bytes) (orc : Nat → Priv.Orders), (∀ t, (orc t).Valid) →
+    ∀ cur ∈ l.d.levels, unambStart l.d cur = true → ∀ tgt ∈ l.d.levels,
+    ∀ (cache : Bytes) (log : List (Bytes × Bytes)) (tick : Nat),
+      (Priv.acquirePriv (toCfg l.d secret orc) (ofStr tgt.name) ⟨⟨ofStr cur.name, none, log⟩, cache, tick⟩).1 = none
+      ∧ (Priv.acquirePriv (toCfg l.d secret orc) (ofStr tgt.name) ⟨⟨ofStr cur.name, none, log⟩, cache, tick⟩).2.dev.mode
+          = ofStr tgt.name := by
+  intro l hl hn hex secret orc ho cur hcur hu tgt htgt cache log tick
+  obtain ⟨hd, htree⟩ := dom_toCfg l.d (c04_checks_hold l hl hn hex) secret orc ho
+  have hres : Priv.Resolves (toCfg l.d secret orc) cache (ofStr tgt.name) (ofStr cur.name) := Or.inl hu
+  rw [Priv.C04.acquire_log_is_treePath hd htree ⟨⟨ofStr cur.name, none, log⟩, cache, tick⟩ rfl
+    (mem_names_toCfg hcur) (mem_names_toCfg htgt) hres]
+  exact ⟨rfl, rfl⟩
+
+/-- the hypotheses are met and the statement is not vacuous: a covered definition with at least four levels,
+an authenticated edge, a level with an unambiguous prompt (any cache) and a level whose prompt
+other levels accept too (needs the tracked level) -/
+example : ∃ l ∈ loaded, isNetwork l.d = true ∧ exemptTag c04Exempt l = none ∧ 4 ≤ l.d.levels.length
+    ∧ (∃ x ∈ l.d.levels, x.escalateAuth = true) ∧ (∃ x ∈ l.d.levels, unambStart l.d x = true)
+    ∧ (∃ x ∈ l.d.levels, unambStart l.d x = false) := by
+  decide +kernel
+
+/-- a level that is alone in its prompt class (C17's notion) has an unambiguous prompt (C04's) -/
+theorem singleton_class_unambiguous : ∀ l ∈ loaded, ∀ x ∈ l.d.levels,
+    classOf (confusablePairs l.d.levels) (l.d.levels.map (·.key)) x.key = [x.key] → unambStart l.d x = true := by
+  decide +kernel
+
+/-- the full statement for the exempt definitions (all valid oracles, all secrets, caches) is not
+proved: C04's theorem needs `cmdsOK` for the whole table -/
+def ExemptAcquireFull : Prop :=
+  ∀ l ∈ loaded, exemptTag c04Exempt l ≠ none →
+    ∀ (secret : Bytes) (orc : Nat → Priv.Orders), (∀ t, (orc t).Valid) →
+    ∀ cur ∈ l.d.levels, unambStart l.d cur = true → ∀ tgt ∈ l.d.levels, targetable tgt = true →
+    ∀ (cache : Bytes),
+      (Priv.acquirePriv (toCfg l.d secret orc) (ofStr tgt.name) ⟨⟨ofStr cur.name, none, []⟩, cache, 0⟩).2.dev.mode
+        = ofStr tgt.name
+
+/-- for the definitions in `c04Exempt` (a source-only level breaks `cmdsOK`) the same result by
+kernel evaluation for two concrete map orders (identity, reversed) × {no secret, a secret}, empty
+cache: from every level with an unambiguous prompt to every targetable level -/
+theorem exempt_acquire_evaluated_partial : ∀ l ∈ loaded, exemptTag c04Exempt l ≠ none →
+    acquireEvalOK l.d = true := by decide +kernel
+
+/-- the evaluation agrees with the theorem on a covered definition (sanity check of the
+instantiation itself: four levels, an authenticated edge, both map orders) -/
+example : ∃ l ∈ loaded, l.file = "cisco_iosxe.yaml" ∧ exemptTag c04Exempt l = none ∧ acquireEvalOK l.d = true := by
+  decide +kernel
 
 /-! ## variants: `mergeVariant` for all bases and variants -/
 
